@@ -328,9 +328,95 @@ fn copy_case(g: &mut Gen, ctx: &mut Ctx) -> CaseResult {
     Ok(())
 }
 
+/// Decoded nested structures handed to the builders (signers through every `add_*signature`
+/// helper, recipients through `add_recipient`, counter-signatures through
+/// `add_counter_signature`) keep their retained bytes in the built value and in its encoding.
+fn builder_case(g: &mut Gen, ctx: &mut Ctx) -> CaseResult {
+    use coset::{CoseEncryptBuilder, CoseMacBuilder, CoseSignBuilder, HeaderBuilder};
+    let kind = *g.pick(&[Kind::Sign, Kind::Sign, Kind::Encrypt, Kind::Mac]);
+    let item = gen_msg(g, kind, &mut Faults::none(), 1);
+    let (bytes, enc) = styled(&item, g, StyleOpts::ALL);
+    let mut mc = MCtx::default();
+    let m = match m_msg(kind, &enc, &mut mc) {
+        Ok(m) => m,
+        Err(_) => return Ok(()),
+    };
+    if m.nested.is_empty() {
+        return Ok(());
+    }
+    let aad = g.small_bytes();
+    let payload = g.small_bytes();
+    ctx.classf(format!("builder:{}", kind.name()));
+    ctx.nontrivial(hash_str(&format!("b|{}", hex_trunc(&bytes, 400))));
+    ctx.sample_with(|| format!("nested structures of a decoded {} ({}) passed through the builders", kind.name(), hex_trunc(&bytes, 40)));
+    let wires: Vec<Vec<u8>> = m.nested.iter().map(|n| n.protected.wire.clone().unwrap_or_default()).collect();
+    let (out, slot, first_sig): (Vec<u8>, usize, Option<CoseSignature>) = match kind {
+        Kind::Sign => {
+            let v = match CoseSign::from_slice(&bytes) { Ok(v) => v, Err(e) => { return if mc.unspecified { Ok(()) } else { Err(format!("valid COSE_Sign rejected: {:?}", e)) } } };
+            let detached = g.bool();
+            let mut b = CoseSignBuilder::new();
+            if !detached {
+                b = b.payload(payload.clone());
+            }
+            for (i, sg) in v.signatures.iter().cloned().enumerate() {
+                let how = g.below(3);
+                ctx.classf(format!("builder:signer-via:{}", [if detached { "add_detached_signature" } else { "add_created_signature" }, if detached { "try_add_detached_signature" } else { "try_add_created_signature" }, "add_signature"][how]));
+                b = match (how, detached) {
+                    (0, false) => b.add_created_signature(sg, &aad, |_| vec![i as u8]),
+                    (1, false) => b.try_add_created_signature(sg, &aad, |_| -> Result<Vec<u8>, ()> { Ok(vec![i as u8]) }).map_err(|_| "try_add_created_signature failed")?,
+                    (0, true) => b.add_detached_signature(sg, &payload, &aad, |_| vec![i as u8]),
+                    (1, true) => b.try_add_detached_signature(sg, &payload, &aad, |_| -> Result<Vec<u8>, ()> { Ok(vec![i as u8]) }).map_err(|_| "try_add_detached_signature failed")?,
+                    _ => b.add_signature(sg),
+                };
+            }
+            let built = b.build();
+            for (i, sg) in built.signatures.iter().enumerate() {
+                ensure!(sg.protected.original_data.as_ref() == Some(&wires[i]), "signer {} added through a builder helper retains {:?}, received {}", i, sg.protected.original_data.as_ref().map(|w| hex_trunc(w, 60)), hex_trunc(&wires[i], 60));
+            }
+            (built.to_vec().map_err(|e| format!("built COSE_Sign fails to encode: {:?}", e))?, 3, v.signatures.first().cloned())
+        }
+        Kind::Encrypt => {
+            let v = match CoseEncrypt::from_slice(&bytes) { Ok(v) => v, Err(e) => { return if mc.unspecified { Ok(()) } else { Err(format!("valid COSE_Encrypt rejected: {:?}", e)) } } };
+            let mut b = CoseEncryptBuilder::new().ciphertext(payload.clone());
+            for r in v.recipients.iter().cloned() {
+                b = b.add_recipient(r);
+            }
+            (b.build().to_vec().map_err(|e| format!("built COSE_Encrypt fails to encode: {:?}", e))?, 3, None)
+        }
+        _ => {
+            let v = match CoseMac::from_slice(&bytes) { Ok(v) => v, Err(e) => { return if mc.unspecified { Ok(()) } else { Err(format!("valid COSE_Mac rejected: {:?}", e)) } } };
+            let mut b = CoseMacBuilder::new().payload(payload.clone()).tag(vec![1]);
+            for r in v.recipients.iter().cloned() {
+                b = b.add_recipient(r);
+            }
+            (b.build().to_vec().map_err(|e| format!("built COSE_Mac fails to encode: {:?}", e))?, 4, None)
+        }
+    };
+    let read = read_strict(&out).map_err(|e| format!("built message not strict CBOR: {:?}", e))?;
+    let nested = read.as_array().and_then(|a| a.get(slot)).and_then(|x| x.as_array()).ok_or("built message has no nested list")?;
+    ensure!(nested.len() == wires.len(), "built message carries {} nested structures, {} were added", nested.len(), wires.len());
+    for (i, n) in nested.iter().enumerate() {
+        let got = n.as_array().and_then(|a| a.first()).and_then(|x| x.as_bytes()).ok_or("nested structure without protected bstr")?;
+        ensure!(got == &wires[i], "nested structure {} of the built {}: protected slot holds {} but the bytes received for it were {}", i, kind.name(), hex_trunc(got, 60), hex_trunc(&wires[i], 60));
+    }
+    // a decoded signature attached as a counter-signature
+    if let Some(sg) = first_sig {
+        let h = HeaderBuilder::new().add_counter_signature(sg).build();
+        let hb = h.to_vec().map_err(|e| format!("header with a decoded counter-signature fails to encode: {:?}", e))?;
+        let r = read_strict(&hb).map_err(|e| format!("{:?}", e))?;
+        let cs = r.as_map().and_then(|m| m.iter().find(|(k, _)| *k == Item::Int(7))).map(|(_, v)| v.clone()).ok_or("no counter-signature in the built header")?;
+        let got = cs.as_array().and_then(|a| a.first()).and_then(|x| x.as_bytes().cloned()).ok_or("counter-signature without protected bstr")?;
+        ensure!(got == wires[0], "counter-signature added through add_counter_signature: protected slot holds {} but the bytes received were {}", hex_trunc(&got, 60), hex_trunc(&wires[0], 60));
+    }
+    Ok(())
+}
+
 fn case(g: &mut Gen, ctx: &mut Ctx) -> CaseResult {
     if g.ratio(1, 12) {
         return copy_case(g, ctx);
+    }
+    if g.ratio(1, 10) {
+        return builder_case(g, ctx);
     }
     if g.ratio(1, 8) {
         kdf_case(g, ctx)
@@ -346,7 +432,7 @@ pub fn property() -> Property {
         title: "Protected-header bytes are kept and reused bit-for-bit, never re-encoded",
         rule: "valid messages of all eight structures with nesting <= 3 (signers, recipients, counter-signatures in protected and unprotected headers) and KDF contexts / SuppPubInfo, protected headers as h'', wrapped empty map or wrapped header map, \
                everything encoded in two independently drawn styles (head widths, indefinite lengths for maps, arrays, strings and the outer byte string itself, bignum integers, key order as generated); \
-               oracle: retained bytes == wire bytes at every position; re-encoding carries the same bytes in every protected slot (strict reader); element 1 (and 2 for signers) of every to-be-signed / MACed / additional-data structure and closure argument == wire bytes; parsed views equal across styles; Clone::clone / clone_from copies of decoded values carry the source's bytes; \
+               oracle: retained bytes == wire bytes at every position; re-encoding carries the same bytes in every protected slot (strict reader); element 1 (and 2 for signers) of every to-be-signed / MACed / additional-data structure and closure argument == wire bytes; parsed views equal across styles; Clone::clone / clone_from copies of decoded values carry the source's bytes; decoded signers / recipients / counter-signatures passed through the builders' add_* helpers keep their bytes in the built value and its encoding; \
                non-trivial = top-level protected bytes differ from the crate's own encoding of the parsed header, or nested protected positions exist; distinct by bytes",
         assumptions: &["positions: body, signers, recipients (depth <= 3), counter-signatures (recursively), SuppPubInfo"],
         exhaustive_domains: &[],
